@@ -49,7 +49,7 @@ PROPS = {
             dict(name="gp", workers={Q: 6, T: 6}, cases={Q: 8000, T: 100000}),
             dict(name="rect", workers={Q: 2, T: 2}, cases={Q: 15000, T: 240000}),
             dict(name="rectdistinct", workers={Q: 2, T: 2}, cases={Q: 10000, T: 120000}),
-            dict(name="rectplain", workers={Q: 6, T: 6}, cases={Q: 20000, T: 400000}),
+            dict(name="rectplain", workers={Q: 6, T: 6}, cases={Q: 8000, T: 300000}),
         ],
         rule=("cases = (gp) general-position path sets, 60% nesting-heavy (stacks of 3-7 nested rings of alternating or "
               "equal orientation, second stacks, nested/random clips), 25% with open subject polylines; (rect) rectilinear "
@@ -243,6 +243,38 @@ PROPS = {
         technique="property-based testing (rapidcheck): distance-based stroke model with inner/outer bounds + metamorphic relations",
         level_text="Generated search against an independent distance model of strokes and caps, plus exact metamorphic clauses. Exploration only.",
         level_note="trusts the stroke model in prop_C07.cpp and oracle.hpp, g++, rapidcheck",
+    ),
+    "C08": dict(
+        bins={"main": dict(tc="gcc", src="prop_C08.cpp", variants=["plain"])},
+        parts=[dict(name="rc", workers={Q: 16, T: 16}, cases={Q: 60000, T: 1500000})],
+        rule=("cases = a rectangle (extent 30 .. 2^39) and 1-3 closed paths of 3-10 vertices: entirely inside, entirely "
+              "outside, enclosing the rectangle or winding around it 1-3 times, or generic paths across it, with 0-60% of the "
+              "vertices snapped to a side line, a corner or a point on a side. Per path: result inside the rectangle (1 unit); "
+              "new vertices on the boundary (1 unit); at one sample per face of the path+rectangle arrangement farther than 2 "
+              "units from the path: more than 1 unit inside the rectangle the result winding equals the input winding for "
+              "simple polygons (equal parity for self-intersecting ones without an edge along a side), more than 1 unit "
+              "outside nothing is covered; bounds inside => returned unchanged, bounds disjoint => empty; orientation "
+              "preserved; clipping several paths in one call == concatenation of the single-path results. Non-trivial = the "
+              "path meets the rectangle boundary at least twice"),
+        assumptions=["exact classification of 'simple' and 'edge along a side' in __int128", "the one-unit band inside each side is not judged (crossing points are truncated, which the statement allows)"],
+        technique="property-based testing (rapidcheck): exact winding-number reference restricted to the rectangle",
+        level_text="Generated search with side/corner-snapping generators against an exact winding oracle, path by path. Exploration only.",
+        level_note="trusts oracle.hpp, g++, rapidcheck",
+    ),
+    "C09": dict(
+        bins={"main": dict(tc="gcc", src="prop_C08.cpp", variants=["plain"], flags=["-DPROP_C09"])},
+        parts=[dict(name="rc", workers={Q: 16, T: 16}, cases={Q: 100000, T: 2500000})],
+        rule=("cases = a rectangle and 1-3 open polylines of 2-10 vertices (inside, outside, across; 0-60% of vertices snapped "
+              "to sides/corners). Reference: Liang-Barsky clipping of every segment against the closed rectangle. Checked: "
+              "every result vertex within 1 unit of the rectangle and 1.5 units of the polyline; pieces in input order and "
+              "direction (non-decreasing arc-length parameter, 2 units slack); total length == exact inside length within 2 "
+              "units per crossing (segments lying along a side are optional: their length widens the tolerance); midpoints "
+              "of inside intervals (> 4 units) are covered, midpoints of outside intervals more than 2 units from the "
+              "rectangle are not; batch == concatenation. Non-trivial = at least 2 boundary crossings"),
+        assumptions=["polylines with repeated consecutive points are skipped (counted)", "|coord| <= 2^40"],
+        technique="property-based testing (rapidcheck): differential against an exact Liang-Barsky reference",
+        level_text="Generated search against an independent segment clipper, including order/direction. Exploration only.",
+        level_note="trusts the Liang-Barsky reference in prop_C08.cpp, g++, rapidcheck",
     ),
     "C02": dict(
         bins={"main": dict(tc="gcc", src="prop_C02.cpp", variants=["plain"])},
